@@ -251,6 +251,7 @@ func checkC01(c *core.Check) {
 		c.HarnessError("no cells from TLC")
 		return
 	}
+	namingConformance(c)
 	rng := rand.New(rand.NewSource(c.Seed))
 	flagSets := []aspec.Flags{{APIHandler: true, DoNotEdit: true, Client: true}, {APIHandler: true, Cors: true}, {APIHandler: true, Client: true, Cors: true, DoNotEdit: true}, {APIHandler: true}}
 	bases := baseForms()
